@@ -255,3 +255,24 @@ REG.contract(
     M + "get_evse_by_type", params=dict(station_id=Id, evse_type=Id), modifies=BASE_FIELDS + [
         "EVSE._max_rate", "EVSE._min_rate", "FiniteRatesEVSE.allowable_rates", "alloc"],
     ensures=[C("C13.factory", _factory_clauses, props=("C13", "C16"))])
+
+
+# ---------------------------------------------------------------------------- set_pilot through a base-class reference (network loop)
+def _set_pilot_generic():
+    occupied = lambda s: Not(IsNone(s.self._ev))
+    REG.contract(
+        M + "BaseEVSE.set_pilot",
+        params=dict(self=Ref("BaseEVSE"), pilot=Real, voltage=Real, period=Real),
+        requires=[C("occupant_wf", lambda s: Implies(occupied(s), ev_wf(s.self._ev)))],
+        raises=[RaiseSpec("InvalidRateError", lambda s: True, iff=False, unchanged=True),
+                RaiseSpec("ValueError", lambda s: True, iff=False, unchanged=False)],
+        modifies=["BaseEVSE._current_pilot"]
+                 + [(f, lambda s: [(s.self._ev, occupied(s))]) for f in EV_FIELDS]
+                 + [(f, lambda s: [(s.self._ev._battery, occupied(s))]) for f in BATT_FIELDS],
+        ensures=[C("C13.pilot_recorded", lambda old, new, ret: [Eq(new.self._current_pilot, old.pilot), new.self._ev == old.self._ev]),
+                 C("C03.battery_inv_kept", lambda old, new, ret: Implies(occupied(old), And(
+                     battery_inv(new.self._ev._battery), new.self._ev._battery == old.self._ev._battery)))],
+    )
+
+
+_set_pilot_generic()
